@@ -27,11 +27,31 @@ func c13PositiveTimeout(ctx *core.Ctx, r *RT) {
 		}
 	}
 	n := 0
+	// the encoder: SetTimeout itself, or the unexported helper it hands the duration to
+	type encFn struct {
+		fn *ssa.Function
+		d  *ssa.Parameter
+	}
+	var encs []encFn
 	for _, fn := range r.Impl("FContext", "SetTimeout") {
-		var d *ssa.Parameter
-		if len(fn.Params) > 1 {
-			d = fn.Params[1]
+		if len(fn.Params) < 2 {
+			continue
 		}
+		encs = append(encs, encFn{fn, fn.Params[1]})
+		for _, c := range ssax.Calls(fn) {
+			g := c.Static
+			if g == nil || g.Pkg != r.Pkg || len(g.Blocks) == 0 || g.Object() == nil || g.Object().Exported() {
+				continue
+			}
+			for i, a := range c.Common.Args {
+				if ssax.Strip(a) == ssa.Value(fn.Params[1]) && i < len(g.Params) {
+					encs = append(encs, encFn{g, g.Params[i]})
+				}
+			}
+		}
+	}
+	for _, ef := range encs {
+		fn, d := ef.fn, ef.d
 		for _, c := range ssax.Calls(fn) {
 			if c.FullName() != "strconv.FormatInt" {
 				continue
